@@ -7,6 +7,7 @@ from hypothesis import strategies as st
 
 from refs import cla_ref as ref
 from vlib import util
+from vlib import defaults
 from vlib.core import Part
 
 PROPERTY = "C16"
@@ -830,4 +831,7 @@ PARTS = [
          quick=(2, 300), thorough=(8, 1500)),
     # (split() documents maxcase/mincase = None on the split parts; re-labelling such parts with
     #  form_extreme(doappend=1|3) is outside the property and is not generated: DESIGN 4.2)
+    # documented defaults: leaving a keyword out = passing its documented value (vlib/defaults.py)
+    Part("defaults", defaults.make_oracle("C16"), enum=defaults.make_enum(), quick=(1, None), thorough=(1, None),
+         exhaustive=True),
 ]
